@@ -729,6 +729,167 @@ def _callees(fn):
     return out
 
 
+try:
+    KNOWN_ADTS = json.load(open(os.path.join(HERE, "known_adts.json")))
+except Exception:
+    KNOWN_ADTS = {}
+
+
+def _shape(variants, self_path, as_path):
+    """comparable shape of an ADT: per variant (discriminant, field types with the type's own path normalised)"""
+    out = []
+    for v in variants:
+        flds = v.get("fields", [])
+        tys = []
+        for f in flds:
+            ty = f[1] if isinstance(f, (list, tuple)) else f.get("ty")
+            tys.append(str(ty).replace(self_path, as_path))
+        out.append((v.get("discr"), tuple(tys)))
+    return out
+
+
+def alias_adts(data):
+    """A type of the reference tree that was renamed (or whose variants / fields were renamed) is given its old names back:
+    matched by shape - same kind, same discriminants, same field types in the same order - when the match is unique."""
+    import re as _re
+    have = {a["path"]: a for a in data["adts"]}
+    type_map, var_map, field_map = {}, {}, {}     # new path -> old path ; (old path, new var) -> old var ; (old path, new field) -> old field
+    new_adts = [a for p_, a in have.items() if p_ not in KNOWN_ADTS]
+    for old, k in KNOWN_ADTS.items():
+        cand = None
+        if old in have:
+            cand = have[old]
+        else:
+            want = _shape(k["variants"], old, "@")
+            cs = [a for a in new_adts if a.get("kind") == k["kind"] and _shape(a.get("variants", []), a["path"], "@") == want and a["path"] not in type_map]
+            if len(cs) == 1:
+                cand = cs[0]
+                type_map[cand["path"]] = old
+        if cand is None:
+            continue
+        kv, cv = k["variants"], cand.get("variants", [])
+        if len(kv) != len(cv):
+            continue
+        for a_, b_ in zip(kv, cv):
+            if a_["name"] != b_["name"] and k["kind"] == "enum":
+                var_map[(old, b_["name"])] = a_["name"]
+            fa, fb = a_["fields"], b_.get("fields", [])
+            if len(fa) == len(fb):
+                for x, y in zip(fa, fb):
+                    yn = y[0] if isinstance(y, (list, tuple)) else y.get("name")
+                    if x[0] != yn:
+                        field_map[(old, yn)] = x[0]
+    if not (type_map or var_map or field_map):
+        return data
+    txt = json.dumps(data)
+    for newp, old in sorted(type_map.items(), key=lambda kv_: -len(kv_[0])):
+        txt = _re.sub(r"(?<![A-Za-z0-9_:])" + _re.escape(newp) + r"(?![A-Za-z0-9_])", old, txt)
+    for (old, nv), ov in var_map.items():
+        txt = _re.sub(r"(?<![A-Za-z0-9_:])" + _re.escape(old + "::" + nv) + r"(?![A-Za-z0-9_])", old + "::" + ov, txt)
+    data = json.loads(txt)
+    # bare variant / field names
+    all_fields = {}
+    for a in data["adts"]:
+        for v in a.get("variants", []):
+            for f in v.get("fields", []):
+                all_fields.setdefault(f.get("name"), set()).add(a["path"])
+    vnames = {}
+    for (old, nv), ov in var_map.items():
+        vnames.setdefault(nv, []).append((old, ov))
+
+    def base_ty(t):
+        t = str(t or "").strip()
+        while t.startswith("&"):
+            t = t[1:].strip()
+            if t.startswith("mut "):
+                t = t[4:].strip()
+        return t
+
+    def fix(n):
+        if isinstance(n, list):
+            for x in n:
+                fix(x)
+            return
+        if not isinstance(n, dict):
+            return
+        # MIR aggregates / ADT tables
+        if "variant" in n and isinstance(n.get("variant"), str):
+            cands = vnames.get(n["variant"])
+            if cands and (n.get("adt") in [c[0] for c in cands] or (n.get("adt") is None and len(cands) == 1)):
+                n["variant"] = [c[1] for c in cands if n.get("adt") in (None, c[0])][0]
+        if n.get("k") == "Field" and isinstance(n.get("e"), dict):
+            key = (base_ty(n["e"].get("ty")), n.get("name"))
+            if key in field_map:
+                n["name"] = field_map[key]
+        if n.get("k") in ("Struct", "PStruct") and isinstance(n.get("to"), dict):
+            tp = n["to"].get("ctor_of") or n["to"].get("path") or ""
+            owner = tp
+            for f in n.get("fields") or ():
+                for o_ in (owner, owner.rsplit("::", 1)[0]):
+                    if (o_, f.get("name")) in field_map:
+                        f["name"] = field_map[(o_, f["name"])]
+                        break
+        if "f" in n and "i" in n and isinstance(n.get("f"), str):
+            # MIR field projection: rename when the new field name belongs to exactly one (renamed) type
+            owners = [o_ for (o_, nf) in field_map if nf == n["f"]]
+            if len(owners) == 1 and all_fields.get(n["f"], set()) <= {owners[0]} | set(type_map):
+                n["f"] = field_map[(owners[0], n["f"])]
+        if isinstance(n.get("fields"), list) and n.get("adt") and all(isinstance(x, str) for x in n["fields"]):
+            n["fields"] = [field_map.get((n["adt"], x), x) for x in n["fields"]]
+        if "name" in n and "discr" in n and isinstance(n.get("name"), str):
+            pass
+        for v in n.values():
+            if isinstance(v, (dict, list)):
+                fix(v)
+    fix(data["fns"])
+    for a in data["adts"]:
+        for v in a.get("variants", []):
+            if (a["path"], v["name"]) in var_map:
+                v["name"] = var_map[(a["path"], v["name"])]
+            for f in v.get("fields", []):
+                if (a["path"], f.get("name")) in field_map:
+                    f["name"] = field_map[(a["path"], f["name"])]
+    data["renamed_types"] = {"types": type_map, "variants": {"%s::%s" % k_: v_ for k_, v_ in var_map.items()},
+                             "fields": {"%s.%s" % k_: v_ for k_, v_ in field_map.items()}}
+    return data
+
+
+def _summary_text(fn, F):
+    """A spelling-independent fingerprint of a small loop-free function: its return value and the fields it stores, with
+    its parameters numbered (used to recognise a renamed anchor by what it does)."""
+    h = fn.get("hir")
+    if not h:
+        return None
+    try:
+        ex = hir.Exec(h, F)
+        r = ex.run()
+    except Exception:
+        return None
+    names = {}
+    for i, p_ in enumerate(h.get("params", [])):
+        if p_["pat"].get("k") == "PBind":
+            names[("var", p_["pat"]["name"])] = ("var", "#%d" % i)
+    eff = sorted((k[2], hir.fmt(hir.subst(v, names), 400)) for k, v in ex.store.items() if isinstance(k, tuple) and k[0] == "fieldstore")
+    t = hir.fmt(hir.subst(r, names), 600) + " | " + repr(eff)
+    return t if len(t) < 1500 else None
+
+
+def summaries_of(F, paths):
+    out = {}
+    for p_ in paths:
+        if p_ in F.fns:
+            t = _summary_text(F.fns[p_], F)
+            if t and t != "() | []":
+                out[p_] = t
+    return out
+
+
+try:
+    KNOWN_SUMMARIES = json.load(open(os.path.join(HERE, "known_summaries.json")))
+except Exception:
+    KNOWN_SUMMARIES = {}
+
+
 def alias_renamed(data, known):
     """An anchored function that is gone while exactly one new function can be it - same name in another module (moved), or
     same owner type and identical signature under another name (renamed) - is given its old path back everywhere in the facts.
@@ -750,9 +911,21 @@ def alias_renamed(data, known):
         else:
             sig = KNOWN_SIGS.get(k)
             c2 = [f for f in new if f["path"].rsplit("::", 1)[0] == owner and f["path"] not in taken and sig is not None
-                  and [f.get("inputs"), f.get("output")] == sig]
+                  and [f.get("inputs"), f.get("output")] == sig[:2]]
             if len(c2) == 1:
                 pick = c2[0]
+            elif sig is not None:
+                c3 = [f for f in new if f["path"] not in taken and [f.get("inputs"), f.get("output")] == sig[:2]]
+                if len(c3) == 1:
+                    pick = c3[0]
+                elif len(c3) > 1 and k in KNOWN_SUMMARIES:
+                    # several candidates with that signature (e.g. eight one-bit setters): the one that does the same thing
+                    class _F:      # minimal facts view for Exec
+                        fns = {f["path"]: f for f in data["fns"]}
+                        consts = {c["path"]: c for c in data["consts"]}
+                    c4 = [f for f in c3 if _summary_text(f, None) == KNOWN_SUMMARIES[k]]
+                    if len(c4) == 1:
+                        pick = c4[0]
         if pick is not None:
             ren[k] = pick["path"]
             taken.add(pick["path"])
@@ -772,6 +945,63 @@ except Exception:
     KNOWN_SIGS = {}
 
 
+def canon_params(data):
+    """Parameters of an anchored function get the names they have on the reference tree (a renamed parameter is a renamed
+    local: invisible to the compiler, and now to the rules as well)."""
+    ren = {}
+    for f in data["fns"]:
+        sig = KNOWN_SIGS.get(f["path"])
+        h = f.get("hir")
+        if not sig or len(sig) < 3 or not h:
+            continue
+        cur = [(p_["pat"].get("name"), p_["pat"].get("id")) if p_["pat"].get("k") == "PBind" else (None, None) for p_ in h.get("params", [])]
+        want = sig[2]
+        if len(cur) != len(want):
+            continue
+        m = {}
+        for (nm, lid), w in zip(cur, want):
+            if nm is not None and w is not None and nm != w:
+                m[lid] = (nm, w)
+        if not m:
+            continue
+        # do not create a clash with another local of the same name
+        taken = _local_names(h)
+        m = {lid: v for lid, v in m.items() if v[1] not in taken or v[1] in [x[0] for x in m.values()]}
+        if not m:
+            continue
+
+        def walk(n):
+            if isinstance(n, list):
+                for x in n:
+                    walk(x)
+                return
+            if not isinstance(n, dict):
+                return
+            if n.get("k") == "PBind" and n.get("id") in m and n.get("name") == m[n["id"]][0]:
+                n["name"] = m[n["id"]][1]
+            to = n.get("to")
+            if isinstance(to, dict) and to.get("res") == "local" and to.get("id") in m and to.get("name") == m[to["id"]][0]:
+                to["name"] = m[to["id"]][1]
+            for v in n.values():
+                if isinstance(v, (dict, list)):
+                    walk(v)
+        walk(h)
+        byname = {v[0]: v[1] for v in m.values()}
+        mm = f.get("mir")
+        if mm:
+            for i, l in enumerate(mm["locals"][:mm["arg_count"] + 1]):
+                if l.get("name") in byname:
+                    l["name"] = byname[l["name"]]
+            for d_ in mm.get("debug") or ():
+                pl = d_.get("place") or {}
+                if d_.get("name") in byname and pl.get("l", 10 ** 9) <= mm["arg_count"]:
+                    d_["name"] = byname[d_["name"]]
+        ren[f["path"]] = byname
+    if ren:
+        data.setdefault("inline_notes", []).append("parameters analysed under their anchor names: %s" % json.dumps(ren))
+    return data
+
+
 def apply(data, known=None):
     """Mutates and returns the fact dict; adds data['inlined'] = {helper: [callers]} and data['inline_notes']."""
     known = known_fns() if known is None else known
@@ -780,9 +1010,13 @@ def apply(data, known=None):
     if known is None:
         data["inline_notes"].append("known_fns.json missing: no inlining")
         return data
+    data = alias_adts(data)
     data = alias_renamed(data, known)
+    data = canon_params(data)
     data.setdefault("inlined", {})
     data.setdefault("inline_notes", [])
+    if data.get("renamed_types"):
+        data["inline_notes"].append("renamed types/variants/fields analysed under their anchor names: %s" % json.dumps(data["renamed_types"]))
     for old, newp in (data.get("renamed") or {}).items():
         data["inline_notes"].append("anchor %s found as %s (moved/renamed): analysed under its anchor name" % (old, newp))
     fns = {f["path"]: f for f in data["fns"]}
